@@ -173,8 +173,6 @@ func (vs views) String() string {
 }
 
 func (m *Member) intersectedView(topic topic, topicHex string, tpv *topicPeerView) []uint16 {
-	var members []uint16
-
 	views := make(views)
 
 	// Our own view is made of exactly the peers whose announced views are compared below:
@@ -184,7 +182,7 @@ func (m *Member) intersectedView(topic topic, topicHex string, tpv *topicPeerVie
 
 	memberToView := tpv.memberToView
 	memberToView.Range(func(k, v interface{}) bool {
-		members = v.([]uint16)
+		members := v.([]uint16)
 		myView = append(myView, k.(uint16))
 		views[view{
 			content: fmt.Sprintf("%v", members),
@@ -206,7 +204,7 @@ func (m *Member) intersectedView(topic topic, topicHex string, tpv *topicPeerVie
 		return nil
 	}
 
-	return members
+	return myView
 }
 
 func (m *Member) myMemberViewSorted(topic topic) intSlice {
